@@ -13,6 +13,7 @@ import (
 
 type Clause struct {
 	Thorough bool   // only attempted in the thorough tier
+	NoCase   bool   // only in the unconditional run
 	Kind     string // requires, ensures, assigns, invariant, decreases, unroll, ghost, ...
 	Text     string
 	Expr     Expr
@@ -192,6 +193,12 @@ func (cs *ContractSet) loadContractFile(path string, defaultPkg string) error {
 		if strings.HasSuffix(cl.Text, " @thorough") {
 			cl.Thorough = true
 			cl.Text = strings.TrimSpace(strings.TrimSuffix(cl.Text, " @thorough"))
+		}
+		// "... @nocase": the clause (a loop invariant) applies only to the unconditional run, not to the behaviours,
+		// where preconditions make the trip count concrete and the loop unrolls
+		if strings.HasSuffix(cl.Text, " @nocase") {
+			cl.NoCase = true
+			cl.Text = strings.TrimSpace(strings.TrimSuffix(cl.Text, " @nocase"))
 		}
 		// per-clause property tag: "... @C06" at the end
 		for {
